@@ -73,7 +73,9 @@ class C04(Check):
                                   "lens": [len(e[3][1]) if e[3][0] == "ok" else 0 for e in ex]}
 
     def bounds(self):
-        return {"status_words_per_index": 65535 if self.thorough else len(self.quick_sws),
+        return {"status_words_per_index": ("65535 at the first and last exchange of each step kind of each "
+                                           "command, %d elsewhere" % len(self.quick_sws))
+                if self.thorough else len(self.quick_sws),
                 "op_bytes_per_index": 256, "fault_kinds": ["timeout", "write", "read"]}
 
     def alphabets(self):
@@ -83,7 +85,12 @@ class C04(Check):
         cs = []
         for name, nom in self.nominal.items():
             for idx in range(nom["n"]):
-                if self.thorough:
+                kinds = nom["kinds"]
+                edge = (kinds.index(kinds[idx]) == idx
+                        or len(kinds) - 1 - kinds[::-1].index(kinds[idx]) == idx)
+                if self.thorough and edge:
+                    # all 65535 status words at the first and the last exchange of every step kind
+                    # of every command (the code paths differ by step kind, not by position inside)
                     for lo in range(0, 0x10000, 0x2000):
                         cs.append({"name": name, "idx": idx, "sw_lo": lo, "sw_hi": lo + 0x2000,
                                    "other": lo == 0})
@@ -120,7 +127,7 @@ class C04(Check):
                 return [v for v in self.pre_violations if v.d["case"]["name"] == name]
             self.one(name, idx, tuple(case["fault"]), stats, vs)
             return vs
-        if self.thorough:
+        if "sw_lo" in case:
             sws = [s for s in range(case["sw_lo"], case["sw_hi"]) if s != 0x9000]
         else:
             sws = self.quick_sws
